@@ -435,7 +435,7 @@ func drawBytes(t *rapid.T, label string) []byte {
 }
 
 func TestLaws(t *testing.T) {
-	kit.Rapid(t, "laws", 400000, 4000000, func(t *rapid.T) {
+	kit.Rapid(t, "laws", 400000, 16000000, func(t *rapid.T) {
 		fn := rapid.SampledFrom(lawNames).Draw(t, "fn")
 		c := kit.NewCase("law", "").S("fn", fn).B("src", drawBytes(t, "s"))
 		if kit.Check(t, c) {
@@ -450,7 +450,7 @@ func TestLaws(t *testing.T) {
 var entityNames = []string{"amp", "lt", "gt", "quot", "copy", "nbsp", "ouml", "Dcaron", "ClockwiseContourIntegral", "ngE", "colon", "Tab", "NewLine", "lpar", "AElig", "HilbertSpace", "DifferentialD", "nvlt", "bne", "fjlig", "nosuch", "AMP", "Amp", "x", "amp1", "zwj", "ThickSpace", "NotEqualTilde"}
 
 func TestReferences(t *testing.T) {
-	kit.Rapid(t, "refs", 200000, 2000000, func(t *rapid.T) {
+	kit.Rapid(t, "refs", 200000, 8000000, func(t *rapid.T) {
 		pre := bytes.ReplaceAll(drawBytes(t, "pre"), []byte("&"), []byte("+"))
 		suf := bytes.ReplaceAll(drawBytes(t, "suf"), []byte("&"), []byte("+"))
 		if len(pre) > 8 {
@@ -504,7 +504,7 @@ var labelRunes = []rune("aAbBzZkKsSßẞσςΣǆǅǄéÉİıſ1-_*[ .")
 
 func TestLabels(t *testing.T) {
 	ws := []string{" ", "  ", "\t", "\n", "\r\n", " \n ", "\t "}
-	kit.Rapid(t, "labels", 200000, 2000000, func(t *rapid.T) {
+	kit.Rapid(t, "labels", 200000, 8000000, func(t *rapid.T) {
 		n := rapid.IntRange(1, 8).Draw(t, "n")
 		var a, b strings.Builder
 		lead := rapid.SampledFrom([]string{"", "", " ", "\n\t"}).Draw(t, "lead")
@@ -542,7 +542,7 @@ func TestLabels(t *testing.T) {
 }
 
 func TestFilters(t *testing.T) {
-	kit.Rapid(t, "filters", 150000, 1500000, func(t *rapid.T) {
+	kit.Rapid(t, "filters", 150000, 6000000, func(t *rapid.T) {
 		ks := append([]string{}, collidingSets[rapid.IntRange(0, len(collidingSets)-1).Draw(t, "set")]...)
 		ks = append(ks, "id", "class", "", "data-x", "ab", "abc", "abd", "b")
 		nk := len(ks)
